@@ -24,6 +24,12 @@ CLAIMED = {
         "Trusted base: spec/layout.rs acceptor; identification is judged leniently (payload or rendered text).",
         "DESIGN.md section 3, C09",
     ),
+    "C11": (
+        "runtime monitor, exhaustive: all 10^6 six-digit strings x 15 date fields, all HHMM and signed offsets x 13C/13D; from-scratch calendar oracle, cross-field agreement, digit reproduction, JSON round trip",
+        "Exhaustive exploration of the finite space the property quantifies over (1,000,000 dates x 15 field types, 10,000 times, 20,000 offsets, non-digit classes at every position), in MT and JSON: accepted iff calendar-valid, the same digits mean the same date in every field, digits are reproduced, from_value(to_value(v)) == v.",
+        "Trusted: 20-line Gregorian calendar model. Offset hours 15..23 are not judged (undocumented).",
+        "DESIGN.md section 3, C11",
+    ),
     "C12": (
         "runtime monitor: metamorphic agreement of five entry points with the typed API; exhaustive 30x30 typed matrix and codes 000-999",
         "Exploration, exhaustive in the type dimensions: every (announced, requested) pair of the 30 types and every three-digit code is driven through parse_auto, typed parse and the parse / validate / publish plugin handlers on real messages; results are compared with the typed API and with the fixed T03 / unsupported expectations.",
